@@ -503,7 +503,10 @@ pub fn merge_extra(prop: &Property, label: &str, dir: &str, ok_exit_codes: &[i32
         let report = Path::new(dir).join(format!("{stem}.json"));
         let log = fs::read_to_string(Path::new(dir).join(format!("{stem}.log"))).unwrap_or_default();
         let merged_ok = report.exists() && merge_report(&mut m, &report).is_ok();
-        if rc == 3 || rc == 124 {
+        if log.contains("unsupported operation") && !log.contains("Undefined Behavior") {
+            // not a verdict about the program: the interpreter lacks an operation (e.g. inline assembly)
+            problems.push(format!("shard {stem}: Miri does not support an operation used by this workload (exit {rc})"));
+        } else if rc == 3 || rc == 124 {
             // wall watchdog / timeout(1) under a sanitizer that slows execution by orders of magnitude
             problems.push(format!("shard {stem}: stopped by the wall watchdog (exit {rc}) - slow, not judged"));
         } else if !ok_exit_codes.contains(&rc) {
